@@ -20,10 +20,11 @@ Print Assumptions C01K_sub_correct.
 Theorem C01K_mul_correct : forall sb x y, lowered_mul sb x y = jax_mul sb x y.
 Proof. exact mul_correct. Qed.
 Print Assumptions C01K_mul_correct.
+(* lax.neg — the lowering of /repo since f821443: Neg on signed types, Sub(0, x) on unsigned ones *)
 Theorem C01K_neg_correct : forall sb x, 0 < snd sb -> in_int sb x -> lowered_neg sb x = jax_neg sb x.
 Proof. exact neg_correct. Qed.
 Print Assumptions C01K_neg_correct.
-(* finding: lax.neg on an unsigned type emits ONNX Neg, which has no unsigned variant *)
+(* history (fixed finding): before f821443 unsigned types got ONNX Neg, which has no unsigned variant *)
 Theorem C01K_neg_unsigned_outside_onnx_domain : forall sb, is_signed sb = false -> ~ neg_dom sb.
 Proof. exact neg_unsigned_outside_onnx_domain. Qed.
 Print Assumptions C01K_neg_unsigned_outside_onnx_domain.
@@ -128,32 +129,39 @@ Proof. exact bitnot_correct. Qed.
 Print Assumptions C01K_bitnot_correct.
 
 (* ---------------------------------------------------------------- shifts *)
-Theorem C01K_shift_left_correct : forall sb x s, 0 <= s -> lowered_shift_left sb x s = jax_shift_left sb x s.
+(* the lowerings of /repo since df7c8d6 (signed types: Cast to the unsigned twin, BitShift, Cast back) and
+   0f3d227 (unsigned arithmetic shift: logical shift OR-ed with the replicated top bit) *)
+Theorem C01K_shift_left_correct : forall sb x s, 0 < snd sb -> in_int sb s -> 0 <= s ->
+  lowered_shift_left sb x s = jax_shift_left sb x s.
 Proof. exact shift_left_correct. Qed.
 Print Assumptions C01K_shift_left_correct.
-Theorem C01K_shift_right_logical_correct : forall sb x s, 0 < snd sb -> shift_dom sb -> in_int sb x -> 0 <= s ->
+Theorem C01K_shift_right_logical_correct : forall sb x s, 0 < snd sb -> in_int sb x -> in_int sb s -> 0 <= s ->
   lowered_shift_right_logical sb x s = jax_shift_right_logical sb x s.
 Proof. exact shift_right_logical_correct. Qed.
 Print Assumptions C01K_shift_right_logical_correct.
-(* finding: shift_left / shift_right_logical on a signed type emit BitShift, which is unsigned-only *)
-Theorem C01K_shift_signed_outside_onnx_domain : forall sb, is_signed sb = true -> ~ shift_dom sb.
-Proof. exact shift_signed_outside_onnx_domain. Qed.
-Print Assumptions C01K_shift_signed_outside_onnx_domain.
+Theorem C01K_shift_right_arithmetic_correct : forall sb x s, 0 < snd sb -> in_int sb x -> in_int sb s -> 0 <= s ->
+  lowered_shift_right_arithmetic sb x s = jax_shift_right_arithmetic sb x s.
+Proof. exact shift_right_arithmetic_correct. Qed.
+Print Assumptions C01K_shift_right_arithmetic_correct.
 Theorem C01K_shift_right_arithmetic_signed_correct : forall sb x s,
   0 < snd sb -> is_signed sb = true -> in_int sb x -> in_int sb s -> 0 <= s ->
   lowered_sra_signed sb x s = jax_shift_right_arithmetic sb x s.
 Proof. exact sra_signed_correct. Qed.
 Print Assumptions C01K_shift_right_arithmetic_signed_correct.
-(* finding: on unsigned types the plugin emits a logical shift, JAX replicates the top bit *)
-Theorem C01K_shift_right_arithmetic_unsigned_correct_refuted :
-  exists x s, in_int U8 x /\ 0 <= s /\ lowered_sra_unsigned U8 x s <> jax_shift_right_arithmetic U8 x s.
+(* history (fixed findings): before df7c8d6 signed shift_left / shift_right_logical emitted BitShift, which is unsigned-only;
+   before 0f3d227 the unsigned arithmetic shift was a logical shift although JAX replicates the top bit *)
+Theorem C01K_shift_signed_outside_onnx_domain : forall sb, is_signed sb = true -> ~ shift_dom sb.
+Proof. exact shift_signed_outside_onnx_domain. Qed.
+Print Assumptions C01K_shift_signed_outside_onnx_domain.
+Theorem C01K_shift_right_arithmetic_unsigned_prerepair_refuted :
+  exists x s, in_int U8 x /\ 0 <= s /\ prerepair_sra_unsigned U8 x s <> jax_shift_right_arithmetic U8 x s.
 Proof. exact sra_unsigned_prerepair_refuted. Qed.
-Print Assumptions C01K_shift_right_arithmetic_unsigned_correct_refuted.
-Theorem C01K_shift_right_arithmetic_unsigned_correct_partial : forall sb x s,
+Print Assumptions C01K_shift_right_arithmetic_unsigned_prerepair_refuted.
+Theorem C01K_shift_right_arithmetic_unsigned_prerepair_partial : forall sb x s,
   0 < snd sb -> shift_dom sb -> 0 <= x < 2 ^ (snd sb - 1) -> 0 <= s ->
-  lowered_sra_unsigned sb x s = jax_shift_right_arithmetic sb x s.
+  prerepair_sra_unsigned sb x s = jax_shift_right_arithmetic sb x s.
 Proof. exact sra_unsigned_prerepair_partial. Qed.
-Print Assumptions C01K_shift_right_arithmetic_unsigned_correct_partial.
+Print Assumptions C01K_shift_right_arithmetic_unsigned_prerepair_partial.
 
 (* ---------------------------------------------------------------- comparisons *)
 Theorem C01K_eq_correct : forall x y, lowered_eq x y = jax_eq x y. Proof. exact eq_correct. Qed.
@@ -204,10 +212,12 @@ Proof. exact round_away_prerepair_partial. Qed.
 Print Assumptions C01K_round_away_prerepair_partial.
 
 (* ---------------------------------------------------------------- integer_pow, convert_element_type *)
-Theorem C01K_integer_pow_correct : forall sb x n, 0 < snd sb -> lowered_integer_pow sb x n = jax_integer_pow sb x n.
+(* lax.integer_pow on integers — the lowering of /repo since 48bcbc4: repeated Mul (exponent 0 keeps Pow) *)
+Theorem C01K_integer_pow_correct : forall sb x n, 0 < snd sb -> in_int sb x ->
+  lowered_integer_pow sb x n = jax_integer_pow sb x n.
 Proof. exact integer_pow_correct. Qed.
 Print Assumptions C01K_integer_pow_correct.
-(* finding: ONNX Pow has no int8 / int16 / unsigned base *)
+(* history (fixed finding): before 48bcbc4 Pow was emitted, which has no int8 / int16 / unsigned base *)
 Theorem C01K_integer_pow_outside_onnx_domain : forall sb, In sb [I8; I16; U8; U16; U32; U64] -> ~ pow_dom sb.
 Proof. exact integer_pow_outside_onnx_domain. Qed.
 Print Assumptions C01K_integer_pow_outside_onnx_domain.
@@ -270,30 +280,6 @@ Theorem C01K_dynamic_slice_prerepair_partial : forall sb dim size i,
   prerepair_dynamic_slice sb dim size i = jax_dynamic_slice sb dim size i.
 Proof. exact dynamic_slice_prerepair_partial. Qed.
 Print Assumptions C01K_dynamic_slice_prerepair_partial.
-
-(* ---------------------------------------------------------------- proved repairs of the remaining findings
-   (graphs of the pending patches .scratch/c01k/fix_neg_unsigned / fix_shift_signed / fix_sra_unsigned / fix_integer_pow .diff;
-   tie S accepts them next to the current lowered_k, so the check follows /repo when they are committed) *)
-Theorem C01K_neg_repaired_correct : forall sb x, 0 < snd sb -> in_int sb x -> repaired_neg sb x = jax_neg sb x.
-Proof. exact repaired_neg_correct. Qed.
-Print Assumptions C01K_neg_repaired_correct.
-Theorem C01K_shift_left_repaired_correct : forall sb x s, 0 < snd sb -> in_int sb s -> 0 <= s ->
-  repaired_shift_left sb x s = jax_shift_left sb x s.
-Proof. exact repaired_shift_left_correct. Qed.
-Print Assumptions C01K_shift_left_repaired_correct.
-Theorem C01K_shift_right_logical_repaired_correct : forall sb x s, 0 < snd sb -> in_int sb x -> in_int sb s -> 0 <= s ->
-  repaired_shift_right_logical sb x s = jax_shift_right_logical sb x s.
-Proof. exact repaired_shift_right_logical_correct. Qed.
-Print Assumptions C01K_shift_right_logical_repaired_correct.
-Theorem C01K_shift_right_arithmetic_unsigned_repaired_correct : forall sb x s,
-  0 < snd sb -> shift_dom sb -> in_int sb x -> in_int sb s ->
-  repaired_sra_unsigned sb x s = jax_shift_right_arithmetic sb x s.
-Proof. exact repaired_sra_unsigned_correct. Qed.
-Print Assumptions C01K_shift_right_arithmetic_unsigned_repaired_correct.
-Theorem C01K_integer_pow_repaired_correct : forall sb x n, 0 < snd sb -> in_int sb x ->
-  repaired_integer_pow sb x n = jax_integer_pow sb x n.
-Proof. exact repaired_integer_pow_correct. Qed.
-Print Assumptions C01K_integer_pow_repaired_correct.
 
 (* ---------------------------------------------------------------- the operator semantics the above rests on *)
 Theorem C01K_onnx_mod_is_floor_mod : forall sb x y, 0 < snd sb -> in_int sb x -> in_int sb y -> y <> 0 ->
